@@ -1,7 +1,7 @@
 #!/bin/sh
 # tools/try_seed.sh <patch file> <tier> <check id>...   runs checks against a scratch copy of /repo with the patch applied
 # (XGCM_SRC), leaving /repo untouched; model checking is skipped (the specification is not what changed)
-patch="$1"; tier="$2"; shift 2
+patch=$(readlink -f "$1"); tier="$2"; shift 2
 d=$(mktemp -d /tmp/tryseed_XXXXXX)
 rsync -a --exclude .git /repo/ "$d/"
 if ! patch -p1 -s -d "$d" -i "$patch"; then echo "patch does not apply"; rm -rf "$d"; exit 2; fi
